@@ -197,6 +197,8 @@ def p_c10(tr, V, st):
 
 
 def wire_lines(b):
+    # telnet option answers (IAC WILL/WONT o) come from the transport, not from a script
+    b = re.sub(rb'\xff[\xfb\xfc].', b'', b, flags=re.S)
     return [x for x in b.split(b'\n') if x and x[0] != 255]
 
 
@@ -307,7 +309,7 @@ def p_c02_c03(tr, V, st):
                 if code == 210 and not bad: V.append(dict(sig='C02 error code without a line naming device or node', fd=fd, line=repr(s), reply=repr(g)[:300]))
                 if code not in (102, 210): V.append(dict(sig='C02 unexpected terminal for a power request', fd=fd, code=code, line=repr(s)))
                 for it in bad:
-                    if it[1] == 308 and it[2].split(b':')[0] not in (b'd0', b'd1'): V.append(dict(sig='C02 308 names no device', fd=fd, text=repr(it[2][:80])))
+                    if it[1] == 308 and not re.match(rb'^d\d$', it[2].split(b':')[0]): V.append(dict(sig='C02 308 names no device', fd=fd, text=repr(it[2][:80])))
                     if it[1] == 309 and it[2].split(b':')[0] not in targets: V.append(dict(sig='C02 309 names a node outside the request', fd=fd, text=repr(it[2][:80]), line=repr(s)))
             elif verb in (b'status', b'beacon'):
                 st['C03 status replies'] += 1
@@ -334,8 +336,8 @@ def p_c02_c03(tr, V, st):
                 shown = collections.Counter()
                 for it in [it for it in infos if it[1] == 303]:
                     n, _, val = it[2].partition(b': ')
-                    for x in (expand_hl(n) if b'[' in n else [n]): shown[x] += 1
-                dup = [n for n, c in shown.items() if c != 1]
+                    for x in expand_hl(n): shown[x] += 1
+                dup = [n for n, c in shown.items() if c != targets.count(n)]
                 if set(shown) != set(targets) or dup:
                     V.append(dict(sig='C03 temp reply lists a node twice or not at all', fd=fd, line=repr(s), dup=repr(dup[:4]), shown=repr(sorted(shown.items()))[:200]))
 
@@ -463,7 +465,7 @@ def p_c20(tr, V, st):
     """descriptor and child ledger on the system calls the real code issued: at every pass boundary the open
     descriptors are exactly one per live client plus one per device that is not NOT_CONNECTED; every fork is
     matched by kill+waitpid before the next fork of that device; nothing is closed twice"""
-    openfds = set(); kids = set()
+    openfds = set(); kids = set(); prevdevs = {}
     for p in tr:
         for l in p.sys:
             if l[0] == 'accept' and int(l[1]) >= 0: openfds.add(int(l[1]))
@@ -476,6 +478,17 @@ def p_c20(tr, V, st):
             elif l[0] == 'fork': kids.add(int(l[1]))
             elif l[0] == 'waitpid': kids.discard(int(l[1]))
         if p.died: break
+        if p.teardown:
+            # after cli_fini / dev_fini: nothing but the descriptor of a device that was still CONNECTING may remain (dev_destroy
+            # disconnects CONNECTED devices only; recorded in DESIGN), and no child
+            st['C20 teardowns checked'] += 1
+            connecting = {d['fd'] for d in prevdevs.values() if d.get('conn', 0) == 1 and d.get('fd', -1) >= 0}
+            if openfds - connecting:
+                V.append(dict(sig='C20 descriptors left open by the shutdown path', at=p.i, fds=sorted(openfds - connecting)[:6]))
+            if kids:
+                V.append(dict(sig='C20 coprocess left running by the shutdown path', at=p.i, pids=sorted(kids)[:6]))
+            break
+        prevdevs = p.devs
         expect = {c['fd'] for c in p.clients.values()} | {d['fd'] for d in p.devs.values() if d.get('conn', 0) != 0 and d.get('fd', -1) >= 0}
         st['C20 pass boundaries'] += 1
         if openfds != expect:
@@ -525,6 +538,23 @@ def _repo():
     return common.REPO
 
 
+
+def align(mine, replies, com_of):
+    """pair the observed request windows of one client with its attributed replies: both are in order, but a request that was
+    installed and finished within one pass has no window, so match on (command, target set) and skip what does not fit"""
+    out = []; k = 0
+    for rep in replies:
+        rq = rep[0]
+        if rq is None: continue
+        verb, targets, line = rq
+        com = com_of(verb)
+        j = k
+        while j < len(mine) and not (mine[j]['com'] == com and set(mine[j]['names']) == set(targets)): j += 1
+        if j < len(mine):
+            out.append((mine[j], rep)); k = j + 1
+    return out
+
+
 VERB2COM = {b'on': 7, b'off': 10, b'cycle': 13, b'reset': 16, b'flash': 23, b'unflash': 25}
 
 
@@ -543,12 +573,12 @@ def p_c02_wire(tr, V, st):
         replies = []
         for ln, g, complete in attribute(v.cin, items):
             rq = parse_req(ln)
-            if rq and complete and g and g[-1][1] in (102, 210, 103, 211): replies.append((rq, g[-1][1]))
+            # every installed command ends in one of these four codes: keep a place-holder for lines this parser does not read
+            # (argument-less `status` / `temp` / `beacon`) so that requests and replies stay aligned
+            if complete and g and g[-1][1] in (102, 210, 103, 211): replies.append((rq, g[-1][1]))
         mine = [r for r in reqs if r['fd'] == fd]
-        for r, (rq, code) in zip(mine, replies):
+        for r, (rq, code) in align(mine, replies, lambda v: VERB2COM.get(v)):
             verb, targets, line = rq
-            if VERB2COM.get(verb) != r['com']:
-                break                          # attribution out of step (e.g. a client record reused): do not guess
             if code != 102: continue
             st['C02 successful power requests checked on the wire'] += 1
             for node in set(targets):
@@ -565,3 +595,244 @@ def p_c02_wire(tr, V, st):
                         if b'*' in names or pl in names: named = True
                 if not named:
                     V.append(dict(sig='C02 success reported but a named node was never addressed on its device', at=r['end'], fd=fd, line=repr(line), node=repr(node), start=r['start']))
+
+
+# ------------------------------------------------------------------------------------------------ marker worlds
+def marker_wire(tr, world):
+    """every `K<kind> <arg>` line a device received: (pass, device, kind, plug names or ['*'])"""
+    import daemon
+    fd2dev = {}
+    out = []
+    for p in tr:
+        for di, d in p.devs.items():
+            if d.get('fd', -1) >= 0: fd2dev[d['fd']] = di
+        for fd, w in p.writes.items():
+            if fd < 2000 or fd not in fd2dev or not w['data']: continue
+            b = re.sub(rb'\xff[\xfb\xfc].', b'', w['data'], flags=re.S)
+            for ln in b.split(b'\n'):
+                m = re.match(rb'^K(\d+) (\S+)$', ln)
+                if m:
+                    arg = m.group(2)
+                    try: plugs = [b'*'] if arg == b'*' else (expand_hl(arg) if b'[' in arg else [arg])
+                    except Exception: plugs = [arg]
+                    out.append((p.i, fd2dev[fd], int(m.group(1)), plugs, ln))
+                elif ln and ln != b'L':
+                    out.append((p.i, fd2dev[fd], -1, [], ln))
+    return out
+
+
+def p_m_c01(world):
+    import daemon
+
+    def pred(tr, V, st):
+        """marker configuration: every command a device receives decodes to (script kind, plug set); for power kinds the plugs
+        are mapped to nodes named by a pending request of exactly that command; `*` only if every plug of the device is mapped
+        and named; the argument is the configured plug name"""
+        wire = marker_wire(tr, world)
+        bypass = collections.defaultdict(list)
+        for w in wire: bypass[w[0]].append(w)
+        pend = {}
+        for p in tr:
+            for cid, (com, cells) in p.args.items(): pend[cid] = (com, {c[0] for c in cells})
+            for (pi, di, kind, plugs, ln) in bypass.get(p.i, []):
+                d = world.devs[di]
+                if kind == -1:
+                    V.append(dict(sig='C08 bytes on the wire that are no send string of the specification', at=p.i, dev=di, line=repr(ln[:60]))); continue
+                if kind not in daemon.KIND2BASE or kind not in d['has']:
+                    V.append(dict(sig='C01 a script kind ran that the device does not define', at=p.i, dev=di, line=repr(ln))); continue
+                base, var = daemon.KIND2BASE[kind]
+                st['marker wire lines %s' % var] += 1
+                if base in daemon.QUERY_BASE: continue
+                cand = [names for (com, names) in pend.values() if com == base]
+                if plugs == [b'*']:
+                    full = {n.encode() for n in d['node'].values() if n}
+                    if var != 'a' or None in d['node'].values() or not any(full <= names for names in cand):
+                        V.append(dict(sig='C01 whole-device command without complete target', at=p.i, dev=di, line=repr(ln), pending=repr(cand)[:200]))
+                    continue
+                if var == 'a':
+                    V.append(dict(sig='C01 _all script sent a plug list', at=p.i, dev=di, line=repr(ln))); continue
+                for pl in plugs:
+                    node = d['node'].get(pl.decode('latin1'))
+                    if node is None or not any(node.encode() in names for names in cand):
+                        V.append(dict(sig='C01 plug commanded that no pending request names', at=p.i, dev=di, plug=repr(pl), line=repr(ln), pending=repr(cand)[:200]))
+            live = {c['id'] for c in p.clients.values() if c['pending'] > 0}
+            for d in p.devs.values():
+                for (com, cid) in d.get('queue', []): live.add(cid)
+            for cid in list(pend):
+                if cid not in live: del pend[cid]
+    pred.__name__ = 'p_m_c01'
+    return pred
+
+
+def p_m_c02(world):
+    import daemon
+
+    def pred(tr, V, st):
+        """marker configuration: a power request answered 102 had, for every named node, a command of that very kind covering the
+        node's plug written to the node's device between request and reply; answered 213 only if some involved device cannot
+        handle it"""
+        reqs, _ = requests(tr)
+        wire = marker_wire(tr, world)
+        cv = client_views(tr)
+        lastto = {fd: c['to'] for fd, c in tr[-1].clients.items()} if tr else {}
+        for fd, v in cv.items():
+            items, _ = split_out(v.cout + lastto.get(fd, b''))
+            replies = []
+            for ln, g, complete in attribute(v.cin, items):
+                rq = parse_req(ln)
+                if complete and g and g[-1][1] in (102, 210, 103, 211): replies.append((rq, g[-1][1], g))
+            mine = [r for r in reqs if r['fd'] == fd]
+            for r, (rq, code, g) in align(mine, replies, lambda v: VERB2COM.get(v, {b'status': 2, b'temp': 19, b'beacon': 21}.get(v))):
+                verb, targets, line = rq
+                if r['com'] in daemon.QUERY_BASE:
+                    # C03 justification: a node shown on/off (or with a value) was answered so by its device within the window
+                    shown = {}
+                    for it in g[:-1]:
+                        if it[1] == 303:
+                            n, _, val = it[2].partition(b': ')
+                            for x in (expand_hl(n) if b'[' in n else [n]): shown[x] = val.strip()
+                        if it[1] == 302:
+                            k, _, lst = it[2].partition(b':')
+                            for x in (expand_hl(lst.strip()) if lst.strip() else []): shown[x] = k.strip()
+                    for n, val in shown.items():
+                        if val in (b'unknown',) or n not in world.node2dev: continue
+                        di, pl = world.node2dev[n]
+                        st['C03 shown values checked against the device answers'] += 1
+                        want = val
+                        ok = any(opi >= r['start'] - 1 and opi <= r['end'] and d2 == di and p2 == pl and (s2 == want) for (opi, d2, p2, s2) in world.answers)
+                        if not ok:
+                            V.append(dict(sig='C03 state shown that the device did not report during this query', at=r['end'], node=repr(n), shown=repr(val), line=repr(line), start=r['start']))
+                    continue
+                if code != 102: continue
+                st['C02 successful power requests checked on the wire'] += 1
+                for node in set(targets):
+                    if node not in world.node2dev: continue
+                    di, pl = world.node2dev[node]
+                    ok = False
+                    for (pi, d2, kind, plugs, ln2) in wire:
+                        if d2 != di or pi < r['start'] or pi > r['end'] or kind not in daemon.KIND2BASE: continue
+                        if daemon.KIND2BASE[kind][0] != r['com']: continue
+                        if plugs == [b'*'] or pl in plugs: ok = True
+                    if not ok:
+                        V.append(dict(sig='C02 success reported but a named node was never addressed on its device', at=r['end'], fd=fd, line=repr(line), node=repr(node), start=r['start']))
+    pred.__name__ = 'p_m_c02'
+    return pred
+
+
+def p_c09_write(tr, V, st):
+    """write side: for every client and every device connection, (bytes handed to the descriptor so far) ++ (bytes still queued)
+    only ever grows at its end: nothing queued is dropped, duplicated or reordered however the writes are split"""
+    cw = collections.defaultdict(bytes); cprev = {}
+    dw = {}; dprev = {}; dfd = {}
+    for p in tr:
+        if p.teardown or p.died: break
+        for fd, w in p.writes.items():
+            if fd < 2000: cw[fd] += w['data']
+        for fd, c in p.clients.items():
+            s = cw[fd] + c['to']
+            if fd in cprev:
+                st['C09 client streams checked'] += 1
+                if not s.startswith(cprev[fd]):
+                    k = next((i for i, (a, b) in enumerate(zip(s, cprev[fd])) if a != b), min(len(s), len(cprev[fd])))
+                    V.append(dict(sig='C09 bytes queued for a client were lost, duplicated or reordered', at=p.i, fd=fd, offset=k, before=repr(cprev[fd][max(0, k - 20):k + 30]), after=repr(s[max(0, k - 20):k + 30])))
+            cprev[fd] = s
+        for fd in list(cprev):
+            if fd not in p.clients: del cprev[fd]
+        for di, d in p.devs.items():
+            fd = d.get('fd', -1)
+            if d.get('conn') != 2 or fd < 0 or dfd.get(di) != fd:
+                dw[di] = b''; dprev.pop(di, None); dfd[di] = fd if d.get('conn') == 2 else None
+                if d.get('conn') != 2: continue
+            w = p.writes.get(fd)
+            if w and w['ok'] and di in dprev or (w and w['ok'] and dfd.get(di) == fd): dw[di] = dw.get(di, b'') + w['data']
+            s = dw.get(di, b'') + d.get('to', b'')
+            if di in dprev:
+                st['C09 device streams checked'] += 1
+                if not s.startswith(dprev[di]) and w is not None and w['ok']:
+                    V.append(dict(sig='C09 bytes queued for a device were lost, duplicated or reordered', at=p.i, dev=di, before=repr(dprev[di][-60:]), after=repr(s[-60:])))
+            dprev[di] = s
+
+
+def telnet_decode(state, data):
+    """reference telnet filter: (state, cmd) x bytes -> kept bytes; state 0 NONE, 1 after IAC, 2 after IAC DO/DONT/WILL/WONT"""
+    out = bytearray()
+    for b in data:
+        if state == 0:
+            if b == 255: state = 1
+            else: out.append(b)
+        elif state == 1:
+            if b == 255: out.append(b); state = 0
+            elif b in (251, 252, 253, 254): state = 2
+            else: state = 0
+        else: state = 0
+    return state, bytes(out)
+
+
+def p_c09_read(tr, V, st):
+    """read side (tcp device 0 and coprocess devices): what the scripts are shown is the byte stream received on the current
+    connection with telnet sequences removed: after every pass the input buffer is a suffix of the decoded stream, and the
+    decoder starts fresh on every connection"""
+    state = {}; stream = {}; fdof = {}
+    for p in tr:
+        if p.teardown or p.died: break
+        for di, d in p.devs.items():
+            fd = d.get('fd', -1)
+            if d.get('conn') != 2:
+                stream.pop(di, None); state.pop(di, None); fdof[di] = None
+                continue
+            if fdof.get(di) != fd:
+                stream[di] = b''; state[di] = 0; fdof[di] = fd
+            n = p.reads.get(fd, 0)
+            if n and n > 0:
+                data = p.delivered.get(fd, {}).get('data', b'')[:n]
+                if di == 0: state[di], kept = telnet_decode(state[di], data)
+                else: kept = data
+                stream[di] += kept
+            frm = d.get('frm', b'')
+            st['C09 device input buffers checked'] += 1
+            if not stream[di].endswith(frm):
+                V.append(dict(sig='C09 script input is not the decoded stream of the current connection', at=p.i, dev=di, buffer=repr(frm[-60:]), decoded_tail=repr(stream[di][-80:])))
+                stream[di] = frm
+
+
+def p_c04_quit(tr, V, st):
+    """a client that says `quit` (no command in progress, healthy connection) receives everything that was queued for it and the
+    `101 Goodbye` line before the daemon closes the connection"""
+    prev = {}
+    for p in tr:
+        if p.teardown or p.died: break
+        for fd, c0 in prev.items():
+            if fd in p.clients: continue
+            d = p.delivered.get(fd)
+            if not d or d['rk'] != 0 or (d['rev'] & 28) or d['cap'] < 0: continue
+            n = p.reads.get(fd, 0)
+            data = c0['frm'] + (d['data'][:n] if n and n > 0 else b'')
+            lines = data.split(b'\n')[:-1]
+            if c0['pending'] != -1 or not lines: continue
+            # the first line that is `quit` with no command line before it (a command would keep the client alive)
+            k = next((i for i, l in enumerate(lines) if l.split(b'\0')[0].strip().lower().startswith(b'quit')), None)
+            if k is None or any(re.match(rb'^\s*(on|off|cycle|reset|flash|unflash|status|temp|beacon)\b', l.strip().lower()) for l in lines[:k]): continue
+            st['C04 quits checked'] += 1
+            w = p.writes.get(fd, {}).get('data', b'')
+            if not w.startswith(c0['to']) or b'101 Goodbye\r\n' not in w:
+                V.append(dict(sig='C04 output queued for a client was discarded when it said quit', at=p.i, fd=fd, queued=len(c0['to']), written=len(w), tail=repr(w[-60:])))
+        prev = {fd: c for fd, c in p.clients.items()}
+
+
+def p_m_c08(world):
+    import daemon
+
+    def pred(tr, V, st):
+        """marker configuration: a `foreachnode` body runs for mapped plugs only, in plug order, each once per run of the script;
+        a `foreachplug` body of a ranged script for the targeted plugs only (checked by the C01 predicate)"""
+        wire = marker_wire(tr, world)
+        runs = collections.defaultdict(list)      # (device, kind) -> consecutive plug arguments
+        for (pi, di, kind, plugs, ln) in wire:
+            if kind in daemon.KIND2BASE and daemon.KIND2BASE[kind][0] in daemon.QUERY_BASE and daemon.KIND2BASE[kind][1] == 'a' and plugs != [b'*']:
+                d = world.devs[di]
+                st['C08 foreachnode iterations on the wire'] += 1
+                for pl in plugs:
+                    if d['node'].get(pl.decode('latin1')) is None:
+                        V.append(dict(sig='C08 foreachnode body ran for a plug that has no node', at=pi, dev=di, line=repr(ln)))
+    pred.__name__ = 'p_m_c08'
+    return pred
